@@ -2,6 +2,7 @@ package main
 
 import (
 	"fmt"
+	"os"
 	"go/token"
 	"go/types"
 	"sort"
@@ -17,7 +18,7 @@ func newFuncVC(p *Prog, fn *ssa.Function, c *Contract) *FuncVC {
 		edge: map[[2]int]string{}, heapSorts: map[string]Sort{}, tags: map[string]int{}, strConsts: map[string]string{},
 		fnIDs: map[*ssa.Function]int{}, loopHeads: map[*ssa.BasicBlock]int{}, loopBody: map[*ssa.BasicBlock][]*ssa.BasicBlock{},
 		backEdges: map[[2]int]bool{}, trustedUse: map[string]bool{}, unmodelled: map[string]bool{}, logKeys: map[string][]Sort{},
-		escaped: map[*ssa.Alloc]bool{}, params: map[string]Val{}, loopMeasure: map[*ssa.BasicBlock]string{}}
+		escaped: map[*ssa.Alloc]bool{}, params: map[string]Val{}, loopMeasure: map[*ssa.BasicBlock]string{}, sliceOrigins: map[ssa.Value]sliceOrigin{}}
 	fv.Name = strings.TrimPrefix(strings.Replace(fv.Name, p.ModPath+"/", "", 1), "")
 	fv.Name = strings.Replace(fv.Name, p.ModPath+".", "zerolog.", 1)
 	if c != nil {
@@ -144,6 +145,7 @@ func (fv *FuncVC) translate() (err error) {
 		fv.params[f.Name()] = Val{T: t}
 	}
 	fv.applyAxioms()
+	fv.streamAxioms()
 	fv.setupReplay()
 	// preconditions
 	if fv.C != nil {
@@ -753,7 +755,7 @@ func (fv *FuncVC) index(in *ssa.Index) {
 	switch xt := in.X.Type().Underlying().(type) {
 	case *types.Basic: // string
 		fv.boundsCheck(i, fv.ilit(0), fv.lenOf(x), in.Pos(), "index")
-		fv.vals[in] = Val{T: Term{S: fv.elemAt(x, i), Sort: SByte, Go: in.Type()}}
+		fv.vals[in] = Val{T: fv.namedElem(Term{S: fv.elemAt(x, i), Sort: SByte, Go: in.Type()})}
 	case *types.Array:
 		fv.boundsCheck(i, fv.ilit(0), fv.ilit(xt.Len()), in.Pos(), "index")
 		fv.vals[in] = Val{T: Term{S: app("select", x.S, i), Sort: fv.sortOf(xt.Elem()), Go: in.Type()}}
@@ -813,7 +815,22 @@ func (fv *FuncVC) sliceInstr(in *ssa.Slice) {
 	if isStr {
 		repl["cap"] = fv.isub(hi, lo)
 	}
+	if xt.Sort.Kind == KBytes {
+		// ghosts: the whole slice keeps them, an emptied slice restarts at TOP, anything else is unknown
+		wholeS := smtAnd(app("=", lo, fv.ilit(0)), app("=", hi, fv.lenOf(xt)))
+		empty := app("=", hi, fv.ilit(0))
+		// o[1:] of an open top-level object with members: its member list
+		memb := smtAnd(app("=", lo, fv.ilit(1)), app("=", hi, fv.lenOf(xt)), app("=", app("Bytes_g3", xt.S), "0"),
+			app("=", app("Bytes_g1", xt.S), fmt.Sprint(mOBJNEXT)), app("=", app("Bytes_g2", xt.S), "7"))
+		ug := fv.fresh("sliceghost", SMath)
+		repl["g1"] = fmt.Sprintf("(ite %s %d (ite %s (Bytes_g1 %s) (ite %s %d %s)))", empty, mTOP, wholeS, xt.S, memb, mMEMBERS, ug.S)
+		ug2 := fv.fresh("sliceghost", SMath)
+		repl["g2"] = fmt.Sprintf("(ite %s 1 (ite %s (Bytes_g2 %s) (ite %s 7 %s)))", empty, wholeS, xt.S, memb, ug2.S)
+		ug3 := fv.fresh("sliceghost", SMath)
+		repl["g3"] = fmt.Sprintf("(ite %s 0 (ite %s (Bytes_g3 %s) (ite %s 0 %s)))", empty, wholeS, xt.S, memb, ug3.S)
+	}
 	r := fv.rebuildSlice(xt, repl, dt)
+	fv.sliceOrigins[in] = sliceOrigin{base: xt, lo: lo, hi: hi}
 	// name the result to keep terms small
 	n := fv.fresh("slice", r.Sort)
 	n.Go = in.Type()
@@ -837,7 +854,7 @@ func (fv *FuncVC) makeSlice(in *ssa.MakeSlice) {
 	fv.assert(smtAnd(app("=", fv.lenOf(r), l), app("=", fv.capOf(r), c), app("=", fv.offOf(r), fv.ilit(0)), app("=", fv.baseOf(r), ref.S),
 		fmt.Sprintf("(forall ((%s %s)) (= (select %s %s) %s))", k, ks, fv.arrOf(r), k, z.S)))
 	if s.Kind == KBytes {
-		fv.assert(smtAnd(app("=", app("Bytes_g1", r.S), "0"), app("=", app("Bytes_g2", r.S), "0")))
+		fv.assert(fv.ghostTop(r.S))
 	}
 	fv.vals[in] = Val{T: r}
 }
@@ -862,7 +879,7 @@ func (fv *FuncVC) lookup(in *ssa.Lookup) {
 		x := fv.term(in.X)
 		i := fv.idxTerm(in.Index)
 		fv.boundsCheck(i, fv.ilit(0), fv.lenOf(x), in.Pos(), "index")
-		fv.vals[in] = Val{T: Term{S: fv.elemAt(x, i), Sort: SByte, Go: in.Type()}}
+		fv.vals[in] = Val{T: fv.namedElem(Term{S: fv.elemAt(x, i), Sort: SByte, Go: in.Type()})}
 		return
 	}
 	// map lookup: arbitrary value
@@ -904,6 +921,9 @@ func (fv *FuncVC) storeInstr(in *ssa.Store) {
 	}
 	vt := in.Val.Type()
 	v := fv.term(in.Val)
+	if os.Getenv("GOVC_DEBUG") != "" {
+		fmt.Fprintf(os.Stderr, "store %s <- %s (%T) term %s lv=%v\n", in.Addr, in.Val, in.Val, v.S, a.LV != nil)
+	}
 	if a.LV != nil {
 		fv.store(fv.cur, a.LV, v)
 		return
@@ -1034,9 +1054,21 @@ func (fv *FuncVC) ret(in *ssa.Return) {
 	}
 	env := fv.newEnv(fv.cur, fv.entry)
 	env.bindResults(fv.C, fv.Fn, res)
+	if r := fv.C.Flags["assumepost"]; r != "" {
+		fv.trustedUse["postconditions of "+fv.Name+" are assumed, not proved (safety obligations are still generated): "+r] = true
+		fv.checkGlobalInvsAtExit(in.Pos())
+		return
+	}
 	for _, e := range fv.C.Ensures {
 		t := env.evalBool(e.E, e)
-		fv.oblige("post", fmt.Sprint(e.Idx), e.Props, in.Pos(), t, e.Src)
+		cs := splitAnd(t)
+		for ci, c := range cs {
+			d := fmt.Sprint(e.Idx)
+			if len(cs) > 1 {
+				d = fmt.Sprintf("%d.%d", e.Idx, ci+1)
+			}
+			fv.oblige("post", d, e.Props, in.Pos(), c, e.Src)
+		}
 	}
 	fv.checkGlobalInvsAtExit(in.Pos())
 }
@@ -1046,3 +1078,12 @@ func (fv *FuncVC) finishTags() {
 }
 
 var _ = strings.TrimSpace
+
+// namedElem names an element read from a sequence and assumes its type range.
+func (fv *FuncVC) namedElem(t Term) Term {
+	n := fv.fresh("el", t.Sort)
+	n.Go = t.Go
+	fv.assert(app("=", n.S, t.S))
+	fv.assert(fv.wf(n, t.Go))
+	return n
+}
